@@ -3,6 +3,7 @@ package main
 // Instruction semantics.
 
 import (
+	"os"
 	"fmt"
 	"go/token"
 	"go/types"
@@ -530,6 +531,11 @@ func (x *Exec) doMakeInterface(st *State, i *ssa.MakeInterface) {
 		st.heapStore(ref, "box:"+typeKey(xt), xt, v)
 	}
 	st.Assume(Eq(App("dyntype", SInt, ref), IntC(x.typeTag(xt))))
+	x.boxedTypes[typeKey(xt)] = xt
+	for text := range x.ifaceTexts {
+		x.assumeImplements(st, text, xt)
+	}
+	x.devirtualize(st, ref, v, xt)
 	x.setReg(st, i, Scalar{ref, i.Type()})
 }
 
@@ -554,6 +560,7 @@ func (x *Exec) doTypeAssert(st *State, i *ssa.TypeAssert) {
 		// interface-to-interface: "has method set" is an uninterpreted predicate of the dynamic type
 		ok = And(Neq(v.T, IntC(0)), App("implements$"+typeKey(at), SBool, App("dyntype", SInt, v.T)))
 		res = Scalar{v.T, at}
+		x.registerIface(st, typeKey(at))
 	} else {
 		ok = And(Neq(v.T, IntC(0)), Eq(App("dyntype", SInt, v.T), IntC(x.typeTag(at))))
 		if st.isRefType(at) {
@@ -731,4 +738,42 @@ func calleeName(c *ssa.CallCommon) string {
 		return FullName(f)
 	}
 	return c.Value.Name()
+}
+
+// devirtualize: for a value of a concrete repository type stored in an interface, the pure methods
+// (uninterpreted functions of the interface value) are tied to the real method bodies when those
+// are branch-free getters.
+func (x *Exec) devirtualize(st *State, iface *Term, v Value, t types.Type) {
+	ms := x.P.SSA.MethodSets.MethodSet(t)
+	for i := 0; i < ms.Len(); i++ {
+		sel := ms.At(i)
+		name := sel.Obj().Name()
+		if !pureMethods[name] {
+			continue
+		}
+		fn := x.P.SSA.MethodValue(sel)
+		if fn == nil || !x.inRepo(fn) || fn.Signature.Params().Len() != 0 || fn.Signature.Results().Len() != 1 {
+			continue
+		}
+		r, ok := x.runStraight(st, fn, []Value{v})
+		if os.Getenv("GOVC_DEBUG") != "" {
+			fmt.Fprintf(os.Stderr, "devirtualize %s.%s ok=%v\n", t, name, ok)
+		}
+		if !ok {
+			continue
+		}
+		rt := fn.Signature.Results().At(0).Type()
+		abs := x.pureMethodResult(st, iface, name, rt)
+		at, bt := st.toTerms(abs, rt), st.toTerms(x.coerce(st, r, rt), rt)
+		if isStringType(rt) {
+			// strings: equal as values (same identity is enough for our purposes)
+			for k := range at {
+				st.Assume(Eq(at[k], bt[k]))
+			}
+			continue
+		}
+		for k := range at {
+			st.Assume(Eq(at[k], bt[k]))
+		}
+	}
 }
